@@ -6,7 +6,7 @@ from .c03 import WTE, describe
 
 LEVEL = 'fault_enumeration'
 ENGINE = 'LAND'
-TECHNIQUE = 'exhaustive enumeration of endings: every line-level landing point of a graceful terminate and of SIGKILL (thorough: SIGTERM) inside the real child along two base paths per worker class, plus the natural endings (return values, Exception, BaseException, unrebuildable values) x the three ways of observing death'
+TECHNIQUE = 'exhaustive enumeration of endings: every line-level landing point of a graceful terminate, of SIGKILL (thorough: SIGTERM) and of a KeyboardInterrupt inside the real child along two base paths per worker class, pairs of graceful requests on thread kinds, plus the natural endings (return values, Exception, BaseException, unrebuildable values, results bigger than the buffers with a slow consumer or a kill during the send) x the three ways of observing death'
 LEVEL_TEXT = ('one real run per (worker class, ending, landing point, way of observing death); after death is observed the four accessors are read four times; oracle: nothing raises or blocks, is_alive False, has_error True/False, exactly shape A (False, value, None) or B (True, None, error) with the expected value/error for that ending, identical in all rounds')
 LEVEL_NOTE = 'one asynchronous event per run; quick tier collapses callee frames outside the run-loop functions; torn sends inside the OS write are approximated by SIGKILL at every line around the send (the kernel write itself is atomic for the sizes used) and by the blocked-in-write scenario'
 
